@@ -201,71 +201,86 @@ func (h *meRun) check(step string, prevCur string, isTimer bool, quiescent bool)
 		return
 	}
 	pc := m.prio(prevCur)
-	if got != prevCur && pc >= 0 {
-		ps := m.st[prevCur]
-		ta := m.topA()
-		cls := "op"
-		if isTimer {
-			cls = "timer"
+	safetyRules := func() bool {
+		if got != prevCur && pc >= 0 {
+			ps := m.st[prevCur]
+			ta := m.topA()
+			cls := "op"
+			if isTimer {
+				cls = "timer"
+			}
+			// S2: recovering current inside its window, no higher-priority available -> unchanged
+			if ps.status == meR && (ta == "" || m.prio(ta) > pc) {
+				h.fail("C14.recovering-stays", cls, "%s: moved %s->%s while %s is recovering inside its window and no higher-priority endpoint is available", step, prevCur, got, prevCur)
+				return false
+			}
+			// S5: non-timer op, delay>0, old current still listed and available/recovering -> unchanged in this call
+			if !isTimer && m.d > 0 && (ps.status == meA || ps.status == meR) {
+				h.fail("C14.no-switch-in-call", "", "%s: moved %s->%s inside the call although a switching delay is configured and %s is still listed and %s", step, prevCur, got, prevCur, map[int]string{meA: "available", meR: "recovering"}[ps.status])
+				return false
+			}
+			// S6: never from an available endpoint to a lower-priority one
+			if ps.status == meA && m.prio(got) > pc {
+				h.fail("C14.no-downgrade", cls, "%s: moved from available %s (priority %d) to lower-priority %s (priority %d)", step, prevCur, pc, got, m.prio(got))
+				return false
+			}
 		}
-		// S2: recovering current inside its window, no higher-priority available -> unchanged
-		if ps.status == meR && (ta == "" || m.prio(ta) > pc) {
-			h.fail("C14.recovering-stays", cls, "%s: moved %s->%s while %s is recovering inside its window and no higher-priority endpoint is available", step, prevCur, got, prevCur)
-			return
+		if pc >= 0 {
+			ps := m.st[prevCur]
+			if ps.status == meR {
+				h.hit("C14.recovering-stays")
+			}
+			if !isTimer && m.d > 0 && (ps.status == meA || ps.status == meR) && m.topA() != "" && m.prio(m.topA()) < pc {
+				h.hit("C14.no-switch-in-call")
+			}
+			if ps.status == meA {
+				h.hit("C14.no-downgrade")
+			}
 		}
-		// S5: non-timer op, delay>0, old current still listed and available/recovering -> unchanged in this call
-		if !isTimer && m.d > 0 && (ps.status == meA || ps.status == meR) {
-			h.fail("C14.no-switch-in-call", "", "%s: moved %s->%s inside the call although a switching delay is configured and %s is still listed and %s", step, prevCur, got, prevCur, map[int]string{meA: "available", meR: "recovering"}[ps.status])
-			return
-		}
-		// S6: never from an available endpoint to a lower-priority one
-		if ps.status == meA && m.prio(got) > pc {
-			h.fail("C14.no-downgrade", cls, "%s: moved from available %s (priority %d) to lower-priority %s (priority %d)", step, prevCur, pc, got, m.prio(got))
-			return
-		}
+		return true
 	}
-	if pc >= 0 {
-		ps := m.st[prevCur]
-		if ps.status == meR {
-			h.hit("C14.recovering-stays")
+	quiescentRules := func() bool {
+		if quiescent {
+			if s := m.st[got]; m.topA() != "" {
+				h.hit("C13.unavail-current")
+				if s.status == meU {
+					h.fail("C13.unavail-current", h.cfgClass(), "%s: Current()=%s is known to be unavailable while %s is available", step, got, m.topA())
+					return false
+				}
+			}
+			if m.topA() == "" && pc >= 0 {
+				h.hit("C13.none-available-unchanged")
+				if got != prevCur {
+					h.fail("C13.none-available-unchanged", "", "%s: moved %s->%s although no endpoint is available", step, prevCur, got)
+					return false
+				}
+			}
+			if pc < 0 && m.topA() == "" {
+				h.hit("C13.removed-first")
+				if got != m.list[0] {
+					h.fail("C13.removed-first", "", "%s: current was removed and nothing is available: got %s, want the list's first %s", step, got, m.list[0])
+					return false
+				}
+			}
+			if m.d == 0 {
+				m.cur = prevCur
+				h.hit("C13.exact")
+				if want := m.exact(); got != want {
+					h.fail("C13.exact", h.cfgClass(), "%s: Current()=%s, the exact rule (no switching delay) gives %s", step, got, want)
+					return false
+				}
+			}
 		}
-		if !isTimer && m.d > 0 && (ps.status == meA || ps.status == meR) && m.topA() != "" && m.prio(m.topA()) < pc {
-			h.hit("C14.no-switch-in-call")
-		}
-		if ps.status == meA {
-			h.hit("C14.no-downgrade")
-		}
+		return true
 	}
-	if quiescent {
-		if s := m.st[got]; m.topA() != "" {
-			h.hit("C13.unavail-current")
-			if s.status == meU {
-				h.fail("C13.unavail-current", h.cfgClass(), "%s: Current()=%s is known to be unavailable while %s is available", step, got, m.topA())
-				return
-			}
+	// the property being checked gets its own rules evaluated first (a single
+	// step can break a C13 and a C14 rule at once; only the first is recorded)
+	if h.prop == "C13" {
+		if !quiescentRules() || !safetyRules() {
+			return
 		}
-		if m.topA() == "" && pc >= 0 {
-			h.hit("C13.none-available-unchanged")
-			if got != prevCur {
-				h.fail("C13.none-available-unchanged", "", "%s: moved %s->%s although no endpoint is available", step, prevCur, got)
-				return
-			}
-		}
-		if pc < 0 && m.topA() == "" {
-			h.hit("C13.removed-first")
-			if got != m.list[0] {
-				h.fail("C13.removed-first", "", "%s: current was removed and nothing is available: got %s, want the list's first %s", step, got, m.list[0])
-				return
-			}
-		}
-		if m.d == 0 {
-			m.cur = prevCur
-			h.hit("C13.exact")
-			if want := m.exact(); got != want {
-				h.fail("C13.exact", h.cfgClass(), "%s: Current()=%s, the exact rule (no switching delay) gives %s", step, got, want)
-				return
-			}
-		}
+	} else if !safetyRules() || !quiescentRules() {
+		return
 	}
 	m.cur = got
 }
